@@ -75,9 +75,19 @@ def table_false_iff_chain(tbl, root_substr, chain):
 
 # --------------------------------------------------------------------------- C04.a
 
+def scope_files(prog):
+    """The parser family (where the cursor-advance argument lives) plus every other source file of the three crates: each loop anywhere
+    on the formatting path needs a progress witness (trace-only debug printing excluded)."""
+    rest = sorted({b.file for b in prog.bodies.values() if b.crate.startswith("pasfmt") and b.file and not b.file.endswith("/debug.rs")
+                   and "/tests/" not in b.file and not b.file.startswith("core/benches") and b.file not in SCOPE_FILES})
+    return SCOPE_FILES + rest
+
+
 def check_a(prog, rep):
     R = "C04.a"
-    PG = Progress(prog, SCOPE_FILES)
+    files = scope_files(prog)
+    PG = Progress(prog, files)
+    rep.analysed["progress_scope_files"] = len(files)
     rep.analysed["progress_fixpoint_rounds"] = PG.rounds
     # anchors: the two cursor-advancing primitives
     for nm in ("next_token", "skip_token"):
@@ -108,7 +118,7 @@ def check_a(prog, rep):
     reqs = {}
     pending_exceptions = []
     for k, b in sorted(PG.bodies.items()):
-        if b.file not in SCOPE_FILES or b.j.get("const_fn"):
+        if b.file not in files or b.j.get("const_fn") or "core::fmt::Debug" in k or "::tests::" in k:
             continue
         loops = b.loops()
         if not loops:
@@ -128,7 +138,7 @@ def check_a(prog, rep):
                 if S:
                     inst["delegated_to_params"] = sorted(map(str, S))
                 rep.ok(R, inst)
-    rep.floor(R, "loops in scope (non-const bodies of parser, directive_tree, lexer, generics, cond-directive)", nloops, 44)
+    rep.floor(R, "loops in scope (non-const, non-test bodies of the three crates)", nloops, 90)
     rep.analysed["loops_in_scope"] = nloops
 
     for (b, h, L, cyc, W) in pending_exceptions:
